@@ -464,6 +464,18 @@ def norm(s):
     return " ".join(str(s).split())
 
 
+def unlisted_violations(rep):
+    """violations of rep that the known-findings file does not list (without changing rep)"""
+    kf = [k for k in load_known().get("findings", []) if k["property"] == rep.prop]
+    out = []
+    for it in rep.items:
+        if it["verdict"] != "violation":
+            continue
+        if not any(k["rule"] == it["rule"] and norm(k["function"]) == norm(it["function"]) and norm(k["construct"]) == norm(it["construct"]) for k in kf):
+            out.append(it)
+    return out
+
+
 def finish(rep, tier, t0, explanation, assumptions, prog, extra=None):
     """Match known findings, enforce floors, write evidence, print verdict lines.
     Returns the process exit code."""
